@@ -65,7 +65,19 @@ pub fn evaluate(p: &dyn Property, sc: &Scenario, i: u64, sub: u64, want_sample: 
                 sim_ms: run.end_ms,
                 events: run.log.len() as u64,
                 wall_us: t0.elapsed().as_micros() as u64,
-                sample: if want_sample { v.sample } else { serde_json::Value::Null },
+                sample: if want_sample {
+                    let mut smp = v.sample;
+                    if i == 0 && sub == 0 {
+                        // one short trace, so that a reader can see what a case looks like
+                        let head: Vec<String> = run.log.iter().take(40).map(crate::log::fmt_ev).map(|l| l.chars().take(220).collect()).collect();
+                        if let serde_json::Value::Object(m) = &mut smp {
+                            m.insert("trace_head".into(), serde_json::json!(head));
+                        }
+                    }
+                    smp
+                } else {
+                    serde_json::Value::Null
+                },
                 err: None,
             };
             (line, Some(run))
